@@ -317,7 +317,12 @@ def fill(index, rep, fn):
               "round 2 would not find / pin a food", loc=loc(PARAMS, fn))
     # the validator's list is the same sequence
     v = index.func(VAL, "Validator.verify_food_usage_priorities_round2")
-    lists = [n_ for n_ in ast.walk(v) if isinstance(n_, (ast.List, ast.Tuple)) and len(n_.elts) == 9]
+    # ... written in the function or kept as a table of the module / the class that the function names
+    used = {n_.id for n_ in ast.walk(v) if isinstance(n_, ast.Name)} | {n_.attr for n_ in ast.walk(v) if isinstance(n_, ast.Attribute)}
+    scopes = [v] + [st.value for holder in [index.module(VAL)] + [c_ for c_ in index.module(VAL).body if isinstance(c_, ast.ClassDef)]
+                    for st in holder.body if isinstance(st, (ast.Assign, ast.AnnAssign)) and st.value is not None
+                    and any(isinstance(t_, ast.Name) and t_.id in used for t_ in (st.targets if isinstance(st, ast.Assign) else [st.target]))]
+    lists = [n_ for sc in scopes for n_ in ast.walk(sc) if isinstance(n_, (ast.List, ast.Tuple)) and len(n_.elts) == 9]
     names = []
     for l in lists:
         if all(str_const(e) for e in l.elts):
